@@ -1154,6 +1154,41 @@ def check_C09(ck):
             ck.expect(impl == want, "tower:" + c[0], c[1], impl, want, "schoolbook quotient-ring arithmetic / x^(q^k)")
 
 
+def fq2_alpha_specials(rng):
+    """Fq2 elements a whose intermediate value alpha = a^((q-1)/2) of the sqrt algorithm (Adj-Rodriguez, alg. 9) has a
+    prescribed special form.  alpha always has norm +-1 (norm 1: a is a square, norm -1: it is not); the norm-(+-1)
+    elements form a cyclic group of order 2(q+1) on which x -> x^((q-1)/2) is a bijection (gcd((q-1)/2, 2(q+1)) = 1), so
+    a = alpha^e * s^2 with e = ((q-1)/2)^-1 mod 2(q+1), s in Fq*, has exactly this alpha."""
+    import math
+    m = 2 * (Q + 1)
+    h = (Q - 1) // 2
+    if math.gcd(h, m) != 1:
+        return []
+    e = pow(h, -1, m)
+    out = []
+    targets = []
+    for c0 in (Q - 1, 1, 0, 2, Q - 2, (Q - 1) // 2, (Q + 1) // 2, 1 << 64, (1 << 320) % Q):
+        for nrm in (1, Q - 1):
+            c1 = O.fsqrt((nrm - c0 * c0) % Q)
+            if c1 is not None:
+                targets.append(("alpha.c0=%s,norm=%s" % ("-1" if c0 == Q - 1 else "%x" % c0 if c0 > 9 else c0, "1" if nrm == 1 else "-1"), (c0, c1)))
+                if c1 != 0:
+                    targets.append(("alpha.c0=%s,norm=%s" % ("-1" if c0 == Q - 1 else "%x" % c0 if c0 > 9 else c0, "1" if nrm == 1 else "-1"), (c0, (-c1) % Q)))
+    for c1 in (1, Q - 1, 2):
+        for nrm in (1, Q - 1):
+            c0 = O.fsqrt((nrm - c1 * c1) % Q)
+            if c0 is not None:
+                targets.append(("alpha.c1=%s,norm=%s" % ("-1" if c1 == Q - 1 else c1, "1" if nrm == 1 else "-1"), (c0, c1)))
+    for (cl, al) in targets:
+        assert (al[0] * al[0] + al[1] * al[1]) % Q in (1, Q - 1)
+        a = F2.pow(al, e)
+        assert F2.pow(a, h) == (al[0] % Q, al[1] % Q)
+        sc = rng.randrange(1, Q)
+        out.append((cl, a))
+        out.append((cl + ",scaled", F2.mul(a, ((sc * sc) % Q, 0))))
+    return out
+
+
 def check_C18(ck):
     rng = ck.rng
     thorough = ck.tier == "thorough"
@@ -1194,6 +1229,9 @@ def check_C18(ck):
         v2.append((0, rng.randrange(Q)))       # purely imaginary
         t = rng.randrange(1, Q)
         v2.append(((-t * t) % Q, 0))           # alpha = -1 branch candidates: a in Fq with a = -t^2
+    for (cl, a) in fq2_alpha_specials(rng):
+        cases.append(("fq2/sqrt/" + cl, "fq2 sqrt %s" % _f2s(a))); kinds.append(("fq2", Q, a, "sqrt"))
+        cases.append(("fq2/legendre/" + cl, "fq2 legendre %s" % _f2s(a))); kinds.append(("fq2", Q, a, "leg"))
     for a in v2:
         cases.append(("fq2/sqrt", "fq2 sqrt %s" % _f2s(a))); kinds.append(("fq2", Q, a, "sqrt"))
         cases.append(("fq2/legendre", "fq2 legendre %s" % _f2s(a))); kinds.append(("fq2", Q, a, "leg"))
